@@ -11,19 +11,25 @@ PROP = dict(
                'About half of the leaves also carry names that do not name the subject (issuerAltName with 1-4 GeneralNames of the SAN grammar, '
                'CRL distribution point names, authorityInfoAccess URIs, authorityKeyIdentifier issuer directoryName, subject OU / emailAddress); '
                'the reference matcher ignores them and an accept that disappears when they are removed is a failure. '
+               'Late-drawn dimensions: the CN or one SAN entry replaced by a single-bit neighbour of E (one character XOR one of its 8 bits, letter and '
+               'non-letter positions; control characters through the CN, printable neighbours through SAN entries of every kind); a hidden NUL in a CN of every '
+               'string type including a BIT STRING whose content octets are the name (TBS patched and re-signed, libcrypto cannot encode it); and the validation '
+               'scenario: plain | leaf expired or not yet valid with a caller that tolerates exactly the date flag (direct call: authStatus EXTENSION and '
+               'authFailFlags == DATE only counts as "name accepted"; handshake: certificate callback written after the API manual that continues on '
+               'CERTIFICATE_EXPIRED only if every certificate is PASS or date-only) | self-signed leaf validated with issuerCerts == NULL. '
                'Finds matching errors that depend on string shape, list position, name type or flags with high probability; proves nothing '
                'about names outside the grammar.',
     level_note='Trusted: OpenSSL 3.0 libcrypto encodes the names it is given byte-for-byte (ASN1_STRING_set); the reference matcher '
                '(ref_accept in props/C05/names.cc, ~40 lines); clock pinned to 2026-09-21 by ld --wrap=time. Tolerated documented behaviour: one '
                'trailing NUL stripped from SAN strings, cross-kind matches under NAME_TYPE_ANY, wildcard in CN, empty left-most label; expected names '
-               'that themselves contain non-printable bytes are not judged by the one-directional oracle. A non-subject name that makes the library '
+               'that themselves contain non-printable bytes are not judged by the one-directional oracle; a raw-content BIT STRING CN without NUL/non-printable bytes may match like an 8-bit string. A non-subject name that makes the library '
                'stricter (e.g. suppresses the CN fallback) is counted (extras-turn-accept-into-reject), not flagged: the model asserts completeness '
                'only for a byte-identical dNSName.',
     technique='property-based testing: reference-model (one-directional) + metamorphic (SAN permutation invariance; non-subject names never turn a reject '
               'into an accept) + completeness smoke, ASan/UBSan',
     rule='case = (expected name E from {host 1-5 labels over a tiny alphabet, e-mail, IPv4 with octets biased to 0,1,9,10,99,100,199,255 and 14/15-character '
          'forms, weird: trailing/leading dot, literal wildcard, control/8-bit}, nameType in all 6 values, mFlags in {0,ALWAYS_CHECK_CN,EMAIL_CI,both}, '
-         'subject CN absent or derived (UTF8/Printable/IA5/T61/BMP/BIT STRING), SAN list of 0-6 (sometimes 9, 12, 17 or 33) entries of dNSName/rfc822Name/iPAddress(4,16,odd)/URI/otherName/'
+         'subject CN absent or derived (UTF8/Printable/IA5/T61/BMP/BIT STRING/raw-content BIT STRING), SAN list of 0-6 (sometimes 9, 12, 17 or 33) entries of dNSName/rfc822Name/iPAddress(4,16,odd)/URI/otherName/'
          'directoryName each derived from E by one of 28 operators (same, case, prefix, suffix, label shift, 7 wildcard forms, trailing dot, embedded/trailing NUL, '
          'control, 8-bit, edit 1/2, swap, local-part change ...) or random from the same grammar; all permutations for lists <= 3 (<= 5 in the allperm target), '
          'rotations+reverse+random otherwise); plus, in ~1/2 of the cases (drawn last on the tape), non-subject names: issuerAltName of 1-4 GeneralNames before or after the '
@@ -31,8 +37,12 @@ PROP = dict(
          '28 operators), CRL distribution point fullName (URL containing E, or dNSName/rfc822Name/iPAddress as before), AIA ocsp/caIssuers URL containing E, '
          'AKI authorityCertIssuer CN=E/wildcard of E, subject OU / emailAddress = E; non-trivial = some subject name (CN/SAN) is a near miss of E, or some issuerAltName entry equals E or is a near miss of E (near miss = case variant, prefix, suffix, label shift, '
          'edit distance <= 2, wildcard form, NUL/non-printable variant) or the SAN list has >= 2 entries; distinct by (SAN kind sequence, nameType, mFlags, '
-         'set of (kind, relation class), issuerAltName kind sequence and relation set, which other non-subject fields are present)',
-    assumptions=['OpenSSL libcrypto writes name bytes verbatim', 'test CA /verif/pki/ca_ec is valid at the pinned time', 'expected names are C strings (no embedded NUL)'],
+         'set of (kind, relation class), issuerAltName kind sequence and relation set, which other non-subject fields are present, scenario); late-drawn (after everything else, '
+         'all-zero = none): 7/16 of the non-smoke cases override the CN (3/16 single-bit neighbour of E / of its one-label wildcard / of a case variant, 1/16 E+NUL+tail in one of 7 encodings, '
+         '1/16 raw BIT STRING with a derived value) or one SAN entry (2/16 printable-preferred single-bit neighbour; iPAddress: one bit of the address); scenario 10/16 plain, 4/16 dated leaf, 2/16 self-signed without issuer list '
+         '(single-bit neighbours count as near misses: relation classes bit1 / bit1-nonprintable / bit1-nul)',
+    assumptions=['OpenSSL libcrypto writes name bytes verbatim', 'test CA /verif/pki/ca_ec is valid at the pinned time', 'expected names are C strings (no embedded NUL)',
+                 'a caller that tolerates an expired / not-yet-valid certificate decides from authStatus and authFailFlags as the API manual describes (date flag only = nothing else is wrong)'],
     targets=[
         dict(name='c05_names', src=_SRC, libs=['-lcrypto'], wraps=WRAPS, env=_ENV,
              quick=dict(cases=40000, secs=70), thorough=dict(cases=1000000, secs=500)),
